@@ -405,6 +405,73 @@ def run_vanished_file(res, scratch, rng):
             s.discard()
 
 
+def run_open_is_a_read(res, scratch, rng):
+    """Opening a database (which reindexes) and reading from it are reads: the file keeps its bytes from before the
+    constructor call until after close().  Files as the library wrote them, and the same rows as another CSV writer
+    would have left them (last row without a line terminator, LF instead of CRLF row ends)."""
+    from tinyflux import FieldQuery, MeasurementQuery, TagQuery, TinyFlux
+
+    base = Session(default_config("csv", True), scratch)
+    try:
+        with quiet_stdout():
+            for _ in range(rng.randint(1, 5)):
+                base.do({"op": "insert", "p": gen.gen_point(rng, gen.MEAS, False)})
+            base.db.close()
+        raw = base.file_bytes()
+        variants = {"as written": raw}
+        if raw.endswith(b"\r\n"):
+            variants["last row unterminated"] = raw[:-2]
+            if b"\n" not in raw.replace(b"\r\n", b""):
+                variants["LF row ends"] = raw.replace(b"\r\n", b"\n")
+        for vname, data in variants.items():
+            for mode in ("r+", "r"):
+                for auto in (True, False):
+                    path = scratch.new_db_path()
+                    try:
+                        with open(path, "wb") as f:
+                            f.write(data)
+                        d = os.path.dirname(path)
+                        before = (digest(path), listing(d), listing(scratch.tmp))
+                        exc = None
+                        with quiet_stdout():
+                            try:
+                                db = TinyFlux(path, auto_index=auto, access_mode=mode)
+                                try:
+                                    n = len(db.all())
+                                    db.count(FieldQuery().x > 0)
+                                    db.get_measurements()
+                                    db.get_tag_values()
+                                    list(iter(db))
+                                    db.reindex()
+                                    if mode == "r+":
+                                        db.remove(TagQuery().nokey == "zz")
+                                        db.update(TagQuery().nokey == "zz", tags={"zz": "1"})
+                                        db.drop_measurement("never-a-measurement")
+                                    db.search(MeasurementQuery() == "m0")
+                                finally:
+                                    db.close()
+                            except Exception as e:  # noqa: BLE001
+                                exc = e
+                        after = (digest(path), listing(d), listing(scratch.tmp))
+                        res.evaluations += 1
+                        res.count("open_read_close_sessions")
+                        res.count(f"open_read_close.{vname}")
+                        res.seen(("open-is-a-read", vname, mode, auto, len(data)))
+                        if after != before:
+                            res.violate(Violation(
+                                "C15", "opening-or-reading-changed-the-file",
+                                {"file_variant": vname, "access_mode": mode, "auto_index": auto, "raised": None if exc is None else f"{type(exc).__name__}: {exc}"[:120],
+                                 "bytes_before": before[0][0], "bytes_after": after[0][0], "dir_before": before[1], "dir_after": after[1]},
+                                replay={"variant": vname, "mode": mode, "auto_index": auto, "file_hex": data.hex()[:4000]},
+                                features={"class": "open", "variant": vname, "mode": mode},
+                            ))
+                            return
+                    finally:
+                        scratch.drop_db_dir(path)
+    finally:
+        base.discard()
+
+
 def run_closed(res, scratch, rng):
     """Reads and no-op writes on a database object that has been close()d (every access mode): whether they raise or
     answer, the file keeps its bytes and nothing is left behind."""
@@ -487,6 +554,8 @@ def run(res, tier, seed, shard, nshards):
             run_modes(res, scratch, rng_for("C15", tier, seed, shard, "modes", h))
         for h in range(2 if tier == "quick" else 12):
             run_vanished_file(res, scratch, rng_for("C15", tier, seed, shard, "vanished", h))
+        for h in range(2 if tier == "quick" else 20):
+            run_open_is_a_read(res, scratch, rng_for("C15", tier, seed, shard, "open", h))
         for h in range(1 if tier == "quick" else 10):
             run_closed(res, scratch, rng_for("C15", tier, seed, shard, "closed", h))
         for h in range(2 if tier == "quick" else 20):
@@ -496,6 +565,8 @@ def run(res, tier, seed, shard, nshards):
     res.require("listing_checks_after_raising_call")
     res.require("vanished_file_calls")
     res.require("calls_on_closed_database")
+    res.require("open_read_close.as written")
+    res.require("open_read_close.last row unterminated")
     res.require("io_fault_leftover_checks")
     res.require("listing_checks")
     res.require("rejected_write_checks")
